@@ -43,6 +43,7 @@ func runParser(p *Program, fn *ssa.Function, o parserOpts) *parserRun {
 	e.SeqCalls = o.SeqCalls
 	e.Prune = o.Prune
 	e.TraceCalls = o.TraceCalls
+	e.PruneByFacts = true
 	e.MaxPaths = 20000
 	if o.MaxPaths > 0 {
 		e.MaxPaths = o.MaxPaths
